@@ -25,3 +25,4 @@ for id in "$@"; do
   echo "== check $id ${TIER:-quick}: rc=$rc"; echo "$out" | grep -E "INCONCLUSIVE|cases," | head -3
   echo "$out" | grep -A${SHOW:-6} "^VIOLATION" | head -${SHOW:-8} | cut -c1-400
 done
+git -C /verif checkout -- evidence 2>/dev/null
